@@ -8,6 +8,7 @@ Engine E2 (psx).
 """
 from __future__ import annotations
 
+import copy
 import time
 
 import numpy
@@ -34,7 +35,7 @@ PAIRS = [
 ]
 
 
-def mk_projection(simple, rich, _replay=None):
+def mk_projection(simple, rich, const="none", _replay=None):
     from cogent3.evolve import likelihood_function as LF
     from cogent3.evolve import substitution_model as SM
 
@@ -51,14 +52,26 @@ def mk_projection(simple, rich, _replay=None):
         for i in range(N):
             pi[i] = pi_vals[i]
         proj = LF._ParamProjection(sm_s, sm_r, pi, same=same)
-        rules = [dict(par_name=str(p), init=par_vals[str(p)], edges=None) for p in sm_s.parameter_order]
-        rules += [dict(par_name="mprobs", init=None), dict(par_name="length", init=1.0, edges=None)]
-        new_rules = proj.update_param_rules(rules)
+        # the rules as lf.get_param_rules() writes them: a free parameter carries init/lower/upper, a constant one value/is_constant
+        null_order = [str(p) for p in sm_s.parameter_order]
+        is_const = {p: (const == "all" or (const == "first" and i == 0)) for i, p in enumerate(null_order)}
+        rules = []
+        for p in null_order:
+            if is_const[p]:
+                rules.append(dict(par_name=p, value=par_vals[p], is_constant=True))
+            else:
+                rules.append(dict(par_name=p, init=par_vals[p], lower=1e-06, upper=1000000.0))
+        shared = [dict(par_name="mprobs", value={a: pi[i] for i, a in enumerate(alpha)}, is_constant=True)]
+        shared += [dict(par_name="length", edge=e, init=wrap(1), lower=0.0, upper=10.0) for e in ("a", "b", "c")]
+        projected = proj.update_param_rules(rules + copy.deepcopy(shared))
+        # the richer function's own rules (all free, at their defaults), then the real update_scoped_rules, as initialise_from_nested does
+        rich_rules = [dict(par_name=str(p), init=wrap(1), lower=1e-06, upper=1000000.0) for p in sm_r.parameter_order] + copy.deepcopy(shared)
+        new_rules = LF.update_scoped_rules(rich_rules, projected)
         rich_vals = {}
         for r in new_rules:
             if r["par_name"] in ("mprobs", "length"):
                 continue
-            rich_vals[r["par_name"]] = r["init"]
+            rich_vals[r["par_name"]] = r["init"] if "init" in r else r["value"]
         args_r = [rich_vals.get(str(p), wrap(1)) for p in sm_r.parameter_order]
         unknown = [k for k in rich_vals if k not in [str(p) for p in sm_r.parameter_order] and k != "ref_cell"]
         w_s = sm_s.mprob_model.calc_word_probs(pi)
@@ -238,12 +251,12 @@ def mk_wrapper(scenario, _replay=None):
 
 
 ENCODED = [
-    ("src/cogent3/evolve/likelihood_function.py", ["_get_param_mapping", "_ParamProjection.__init__", "_ParamProjection._set_ref_val", "_ParamProjection._rate_same", "_ParamProjection._rate_not_same", "_ParamProjection.update_param_rules"]),
+    ("src/cogent3/evolve/likelihood_function.py", ["_get_param_mapping", "_ParamProjection.__init__", "_ParamProjection._set_ref_val", "_ParamProjection._rate_same", "_ParamProjection._rate_not_same", "update_scoped_rules", "update_rule_value", "extend_rule_value", "_get_keyed_rule_indices", "_ParamProjection.update_param_rules"]),
     ("src/cogent3/evolve/substitution_model.py", ["get_param_matrix_coords", "get_reference_cell", "calcQ (both classes)", "Parametric.calc_exchangeability_matrix"]),
     ("src/cogent3/maths/optimisers.py", ["maximise", "limited_use", "bounded_function", "bounds_exception_catching_function"]),
 ]
 BOUNDS = {
-    "quick": [f"{len(PAIRS)} ordered nested pairs of nucleotide models (JC69, K80, F81, HKY85, TN93, GTR, ssGN, GN)", "all motif probabilities > 0 summing to 1 (fixed at 1/4 for JC69/K80 as their definition requires) and all null parameters > 0: unbounded reals",
+    "quick": [f"{len(PAIRS)} ordered nested pairs of nucleotide models (JC69, K80, F81, HKY85, TN93, GTR, ssGN, GN)", "each pair with the nested function's rate parameters all free, the first one held constant, and all held constant (rules in the format get_param_rules writes); the richer function's rules all free; tree of three edges", "all motif probabilities > 0 summing to 1 (fixed at 1/4 for JC69/K80 as their definition requires) and all null parameters > 0: unbounded reals",
               f"{len(SCENARIOS)} optimiser scenarios: <= 4 evaluations of <= 5 distinct in-bounds points + out-of-bounds points; evaluation limit in {{None,1,2}}; optimiser crash; ALL function values (symbolic reals, ties included)"],
 }
 BOUNDS["thorough"] = BOUNDS["quick"]
@@ -261,6 +274,10 @@ def obligations(tier):
     obs = []
     for s, r in PAIRS:
         obs.append(Ob(f"projection/{s}->{r}", __name__, "mk_projection", {"simple": s, "rich": r}, kind="direct", timeout=1200, group="projection"))
+        if c05._model(s).parameter_order:
+            # the nested function holds its first / all rate parameters constant (set_param_rule(..., is_constant=True, value=...))
+            obs.append(Ob(f"projection/{s}->{r}/const-first", __name__, "mk_projection", {"simple": s, "rich": r, "const": "first"}, kind="direct", timeout=1200, group="projection"))
+            obs.append(Ob(f"projection/{s}->{r}/const-all", __name__, "mk_projection", {"simple": s, "rich": r, "const": "all"}, kind="direct", timeout=1200, group="projection"))
     for sc in SCENARIOS:
         obs.append(Ob(f"wrapper/{sc}", __name__, "mk_wrapper", {"scenario": sc}, kind="direct", timeout=900, group="wrapper"))
     return obs
